@@ -628,6 +628,140 @@ Proof.
     assert (TB : trim_info ex (Some root) (block_of who now (dir_stored dk) s_none s_none)
                  = Ok (block_of who now (dir_stored dk) s_none s_none)).
     { apply trim_block_inert; auto; now apply rel_inert. }
+    assert (UD : under_dir (dir_stored dk) s_none = false) by (unfold under_dir; change (isabs s_none) with false; now rewrite andb_false_r).
     exact (declare_rec_gen ex who now n v f root dk s_none None r _ HR Hd Hp K
-             eq_refl eq_refl I Hf Hroot Hin TB).
+             eq_refl UD I Hf Hroot Hin TB).
+Qed.
+
+(* ------------------------------------------------------------ Database.findProduct on the stored block *)
+
+Definition block_holds (B : info) (dS ts U : str) : Prop :=
+  info_get B k_productDir = Some dS /\ info_get B k_table_file = Some ts /\ info_get B k_ups_dir = Some U.
+
+Lemma block_of_holds who now dS ts U : block_holds (block_of who now dS ts U) dS ts U.
+Proof. repeat split. Qed.
+
+Lemma ups_at_abs D : wf_abs D = true -> ups_at D = D ++ c_slash :: s_ups.
+Proof.
+  intro H. unfold ups_at. destruct (str_eqb_spec D s_none) as [->|]; [discriminate|reflexivity].
+Qed.
+
+Lemma wf_dirk_at root dk : wf_abs root = true -> wf_dirk dk = true -> dk <> DNone ->
+  wf_abs (dir_at root dk) = true.
+Proof.
+  intros HR Hd N. destruct dk as [d|o|]; cbn in *; [now apply wf_abs_join|assumption|congruence].
+Qed.
+
+(* the part of tab_ok that does not depend on where the stack is *)
+Definition tab_wf (dk : dirk) (tk : tabk) : bool :=
+  match tk with
+  | TUps tn => wf_name_part tn && match dk with DNone => false | _ => true end
+  | TAbsIn t => wf_rel t
+  | TAbsOut T => wf_abs T
+  | TInterned e tn => wf_name_part tn && negb (has_dollar e)
+  | TNone => true
+  end.
+
+Lemma tab_ok_wf root dk tk : tab_ok root dk tk = true -> tab_wf dk tk = true.
+Proof.
+  destruct tk as [tn|t|T|e tn|]; cbn [tab_ok tab_wf]; intro H; try assumption.
+  - apply andb_true_iff in H. destruct H as [H1 H2]. rewrite H1. destruct dk; [reflexivity|reflexivity|discriminate].
+  - apply andb_true_iff in H. destruct H as [H _]. apply andb_true_iff in H. tauto.
+  - apply andb_true_iff in H. destruct H as [H _]. apply andb_true_iff in H. tauto.
+Qed.
+
+Theorem find_resolves ex n v f root dk tk r B :
+  wf_abs root = true -> wf_dirk dk = true -> tab_wf dk tk = true -> find_ok ex root dk tk ->
+  vf_name r = Some n -> vf_version r = Some v ->
+  alookup f (vf_info r) = Some B ->
+  block_holds B (dir_stored dk) (fst (table_stored tk)) (snd (table_stored tk)) ->
+  make_product ex r f (Some root) (Some (db_of root))
+  = Some (prod_of n v f (Some (dir_at root dk)) (Some (table_at root dk tk)) (Some (db_of root))
+                  (Some (match tk with
+                         | TInterned e _ => ups_db_at root e
+                         | TNone => s_none
+                         | _ => ups_at (dir_at root dk)
+                         end))).
+Proof.
+  intros HR Hd Ht Hfind En Ev EB [B1 [B2 B3]].
+  rewrite (make_product_block ex r f B root HR EB), En, Ev, B1, B2, B3. cbn [val_str].
+  destruct (dir_stored_props dk Hd) as [D1 _].
+  destruct tk as [tn|t|T|e tn|]; cbn [table_stored fst snd tab_wf table_at find_ok] in *.
+  - apply andb_true_iff in Ht. destruct Ht as [Hn1 Hdk].
+    destruct (wf_name_part_parts tn Hn1) as [N1 [N2 [N3 N4]]].
+    rewrite mk_product_id by (apply nonempty_truthy; assumption).
+    rewrite resolve_S1 by assumption. f_equal.
+    assert (NN : dk <> DNone) by (destruct dk; [discriminate|discriminate|discriminate Hdk]).
+    rewrite (ups_at_abs _ (wf_dirk_at root dk HR Hd NN)).
+    unfold table_choice.
+    assert (E : (dir_at root dk ++ c_slash :: s_ups) ++ c_slash :: tn
+                = dir_at root dk ++ c_slash :: s_ups ++ c_slash :: tn).
+    { now rewrite <- app_assoc. }
+    rewrite E, Hfind. reflexivity.
+  - rename Ht into T1. destruct (wf_rel_parts t T1) as [Tn _].
+    rewrite mk_product_id by (apply nonempty_truthy; assumption).
+    rewrite resolve_S1 by assumption. unfold table_choice. destruct Hfind as [F1 F2].
+    now rewrite F1, F2.
+  - rename Ht into T1.
+    rewrite mk_product_id by (try (apply nonempty_truthy; assumption);
+                              apply isabs_truthy; apply wf_abs_parts in T1; tauto).
+    now rewrite resolve_S2.
+  - apply andb_true_iff in Ht. destruct Ht as [Hn1 He]. apply negb_true_iff in He.
+    destruct (wf_name_part_parts tn Hn1) as [N1 [N2 [N3 N4]]].
+    rewrite mk_product_id by (apply nonempty_truthy; assumption).
+    rewrite resolve_S3 by assumption. unfold table_choice, ups_db_at.
+    assert (E : (db_of root ++ c_slash :: e ++ c_slash :: s_ups) ++ c_slash :: tn
+                = db_of root ++ c_slash :: e ++ c_slash :: s_ups ++ c_slash :: tn).
+    { rewrite <- app_assoc. cbn [app]. now rewrite <- app_assoc. }
+    rewrite E, Hfind. reflexivity.
+  - rewrite mk_product_id by (try (apply nonempty_truthy; assumption); reflexivity).
+    now rewrite resolve_S4.
+Qed.
+
+(* ------------------------------------------------------------ through the text of the version file *)
+
+(* printing and reading a block keeps its three path fields when they are not empty *)
+Lemma block_holds_norm B dS ts U :
+  nonempty dS = true -> nonempty ts = true -> nonempty U = true ->
+  block_holds B dS ts U -> block_holds (norm_info B) dS ts U.
+Proof.
+  intros N1 N2 N3 [B1 [B2 B3]]. unfold block_holds, info_get in *.
+  assert (P : forall k s, nonempty s = true ->
+                match alookup k B with Some v => v | None => None end = Some s ->
+                printed_val B k = Some (Some s)).
+  { intros k s Ns H. unfold printed_val. destruct (alookup k B) as [w|]; [|discriminate].
+    subst w. destruct s; [discriminate|reflexivity]. }
+  rewrite !alookup_norm_info.
+  change (str_eqb k_productDir k_productDir) with true.
+  change (str_eqb k_table_file k_productDir) with false.
+  change (str_eqb k_table_file k_table_file) with true.
+  change (str_eqb k_ups_dir k_productDir) with false.
+  change (str_eqb k_ups_dir k_table_file) with false.
+  change (str_eqb k_ups_dir k_ups_dir) with true. cbv iota.
+  rewrite (P _ _ N1 B1), (P _ _ N2 B2), (P _ _ N3 B3). auto.
+Qed.
+
+Lemma table_stored_nonempty root dk tk : tab_ok root dk tk = true ->
+  nonempty (fst (table_stored tk)) = true /\ nonempty (snd (table_stored tk)) = true.
+Proof.
+  destruct tk as [tn|t|T|e tn|]; cbn [table_stored fst snd tab_ok]; intro H.
+  - apply andb_true_iff in H. destruct H as [H _]. apply wf_name_part_parts in H. split; [tauto|reflexivity].
+  - apply andb_true_iff in H. destruct H as [H _]. apply andb_true_iff in H. destruct H as [H _].
+    apply wf_rel_parts in H. split; [tauto|reflexivity].
+  - apply andb_true_iff in H. destruct H as [H _]. apply andb_true_iff in H. destruct H as [H _].
+    apply wf_abs_parts in H. split; [apply nonempty_abs; tauto|reflexivity].
+  - apply andb_true_iff in H. destruct H as [H _]. apply wf_name_part_parts in H. split; [tauto|reflexivity].
+  - split; reflexivity.
+Qed.
+
+Lemma db_declare_fresh ex who now p r' :
+  nonempty (p_name p) = true -> nonempty (p_version p) = true -> nonempty (p_flavor p) = true ->
+  declare_rec true ex who now p
+    {| vf_name := Some (p_name p); vf_version := Some (p_version p); vf_info := [] |} = Ok r' ->
+  db_declare ex who now p None = vf_lines r'.
+Proof.
+  intros H1 H2 H3 E. unfold db_declare, db_declare_gen. rewrite H1, H2, H3. cbn [andb negb].
+  cbn [bind]. rewrite E. cbn [bind].
+  unfold declare_rec in E.
+  destruct (truthy (p_table (canon_gen true (clone ex p)))); [reflexivity|discriminate].
 Qed.
